@@ -135,7 +135,7 @@ func runHistory(t *rapid.T, cfg PropCfg, col *Collector) {
 		maxOps *= 2 // longer histories in the thorough tier
 	}
 	n := rapid.IntRange(cfg.MinOps, maxOps).Draw(t, "n-ops")
-	for i := 0; i < n && alive; i++ {
+	for i := 0; (i < n || g.Busy()) && alive && i < n+400; i++ {
 		o := g.Next(t, w, h.Steps[len(h.Steps)-1].Post)
 		alive = exec(o)
 	}
